@@ -1,7 +1,8 @@
 (* C03 — indexing selects exactly what torch indexing selects.  Property theorems only. *)
-From Coq Require Import ZArith List Bool.
+From Coq Require Import ZArith List Bool Lia.
 Import ListNotations.
 From TD Require Import Spec.PySlice Model.C03_Index Spec.C03_TorchIndex Proofs.C03_IndexP.
+From TD Require Import Spec.C03_TorchSel Model.C03_Names Model.C03_SetItem Proofs.C03_SelP Proofs.C03_SetP Proofs.C03_NamesP Proofs.C03_BoundsP Proofs.C03_OriginP Proofs.C03_ProvP.
 Open Scope nat_scope.
 
 (* batch size of td[idx] = torch's shape for a tensor of the batch shape: every rank, every Ellipsis-free index
@@ -62,3 +63,241 @@ Proof. split; reflexivity. Qed.
 Example C03_ex2 : torch_shape [2; 3; 4] [IMask [2; 3] 4; IEll] = Some [4; 4]
   /\ convert_ellipsis [IMask [2; 3] 4; IEll] [2; 3; 4] = Ok [IMask [2; 3] 4; full_slice].
 Proof. split; reflexivity. Qed.
+
+(* ================= element selection (Spec/C03_TorchSel.sel: result position -> source position, index VALUES included) *)
+
+(* every entry is indexed along its batch dims only: the element at position r ++ f of an indexed entry of shape
+   bs ++ feat is the source element at (sel bs idx r) ++ f — all ranks, all Ellipsis-free indices (ints incl. negative,
+   slices, None, integer arrays and boolean masks by value, any number, any position) *)
+Theorem C03_sel_feat : forall bs feat idx r f s,
+  sel_ne bs idx r = Some s -> length f = length feat ->
+  sel_ne (bs ++ feat) idx (r ++ f) = Some (s ++ map Z.of_nat f).
+Proof. exact sel_ne_feat. Qed.
+Print Assumptions C03_sel_feat.
+
+(* the same through the library's Ellipsis handling: the index is expanded against the BATCH shape, then handed to
+   the entry *)
+Theorem C03_sel_entry : forall bs feat idx idx' r f s,
+  vexpand_ell idx (length bs) = Some idx' -> sel bs idx r = Some s -> length f = length feat ->
+  sel_ne (bs ++ feat) idx' (r ++ f) = Some (s ++ map Z.of_nat f).
+Proof. exact sel_entry. Qed.
+Print Assumptions C03_sel_entry.
+
+(* sel lives exactly on the positions of torch's result shape: defined only there ... *)
+Theorem C03_sel_domain : forall bs idx r s,
+  sel bs idx r = Some s -> exists sh, torch_shape bs (map erase idx) = Some sh /\ length r = length sh.
+Proof. exact sel_some_shape. Qed.
+Print Assumptions C03_sel_domain.
+
+(* ... and defined everywhere there *)
+Theorem C03_sel_total : forall bs idx sl B r,
+  slots (map erase idx) bs = Some sl -> bcast_all (adv_shapes (map erase idx)) = Ok B ->
+  length r = length (place B sl) -> exists s, sel_ne bs idx r = Some s.
+Proof. exact sel_ne_defined. Qed.
+Print Assumptions C03_sel_total.
+
+(* ... and it lands inside the source: every position of the result shape is sent to a position of the indexed tensor,
+   given that the index entries read for that position are valid indices (vwf_at = torch's bounds check for them) *)
+Theorem C03_sel_in_bounds : forall bs idx sl B r s,
+  slots (map erase idx) bs = Some sl -> bcast_all (adv_shapes (map erase idx)) = Ok B ->
+  in_range (place B sl) r ->
+  vwf_at (fst (unplace (length B) sl r)) idx bs ->
+  sel_ne bs idx r = Some s -> in_rangeZ bs s.
+Proof. exact sel_ne_in_bounds. Qed.
+Print Assumptions C03_sel_in_bounds.
+
+(* ================= writes *)
+
+(* the batch size a tensordict / dict value is expanded or reset to = torch's shape of the indexed batch *)
+Theorem C03_setitem_bs : forall bs idx T,
+  existsb is_ell idx = false -> torch_shape bs idx = Some T -> setitem_target bs idx = Ok T.
+Proof. exact setitem_target_torch. Qed.
+Print Assumptions C03_setitem_bs.
+
+Theorem C03_setitem_action : forall bs idx vbs T a,
+  existsb is_ell idx = false -> torch_shape bs idx = Some T -> setitem_value_action bs idx vbs = Ok a ->
+  (a = SetAsIs /\ vbs = T) \/ (a = SetExpand T /\ is_suffix vbs T = true) \/ (a = SetReshape T /\ is_suffix vbs T = false).
+Proof. exact setitem_action_torch. Qed.
+Print Assumptions C03_setitem_action.
+
+(* a key missing from the destination: the created entry, indexed with the same index, has exactly the value's shape *)
+Theorem C03_new_key_shape : forall bs idx sl B s,
+  slots idx bs = Some sl -> bcast_all (adv_shapes idx) = Ok B ->
+  prefix_is (place B sl) s = true ->
+  torch_shape (new_shape bs (place B sl) s) idx = Some s.
+Proof. exact new_key_shape. Qed.
+Print Assumptions C03_new_key_shape.
+
+(* frame: an entry of shape bs ++ feat written through idx is touched exactly at (positions sel reaches in the batch) x
+   (all feature positions) ... *)
+Theorem C03_written_feat : forall bs feat idx q,
+  existsb is_ell (map erase idx) = false -> total_consumed (map erase idx) <= length bs ->
+  (written_ne (bs ++ feat) idx q <->
+   exists p f, q = p ++ map Z.of_nat f /\ written_ne bs idx p /\ in_range feat f).
+Proof. exact written_feat. Qed.
+Print Assumptions C03_written_feat.
+
+(* ... so a batch position outside the image of sel is unchanged in every entry, at every feature position *)
+Theorem C03_write_frame : forall bs feat idx p f,
+  existsb is_ell (map erase idx) = false -> total_consumed (map erase idx) <= length bs ->
+  length f = length feat ->
+  ~ written_ne bs idx p -> ~ written_ne (bs ++ feat) idx (p ++ map Z.of_nat f).
+Proof. exact write_frame. Qed.
+Print Assumptions C03_write_frame.
+
+(* ... and an entry whose key does not occur in the value is the same entry after the write *)
+Theorem C03_setitem_other_keys : forall f bs kids idx T items d' k',
+  gbs bs idx = Ok T ->
+  setitem (S f) (VN bs kids) idx (WTree (VN T items)) = Ok d' ->
+  ~ In k' (map fst items) ->
+  exists kids', d' = VN bs kids' /\ find_key k' kids' = find_key k' kids.
+Proof. exact setitem_other_keys. Qed.
+Print Assumptions C03_setitem_other_keys.
+
+(* acceptance.  Full statement: a write torch accepts entry by entry is accepted.  False of the faithful model for nested
+   dict values (finding D30): witness below; what holds: flat tensordict values with the indexed batch size *)
+Definition C03_setitem_accept_full_statement : Prop :=
+  forall dest idx t, leafwise_ok dest t idx = true -> setitem 8 dest idx (WDict t) <> Reject.
+Theorem C03_setitem_accept_refuted :
+  exists dest idx t, leafwise_ok dest t idx = true /\ setitem 8 dest idx (WDict t) = Reject.
+Proof. exact setitem_dict_refuted. Qed.
+Print Assumptions C03_setitem_accept_refuted.
+Theorem C03_setitem_accept_partial : forall f bs kids idx T items,
+  gbs bs idx = Ok T -> Forall (flat_item_ok kids idx) items ->
+  setitem (S (S f)) (VN bs kids) idx (WTree (VN T items)) = Ok (VN bs kids).
+Proof. exact setitem_flat_accepts. Qed.
+Print Assumptions C03_setitem_accept_partial.
+
+(* ================= names of an indexed result: one per dim of torch's result shape *)
+Theorem C03_names_length : forall bs idx sl B,
+  slots idx bs = Some sl -> bcast_all (adv_shapes idx) = Ok B ->
+  exists tk, names_take bs idx = Ok tk /\ length tk = length (place B sl).
+Proof. exact names_take_length. Qed.
+Print Assumptions C03_names_length.
+
+Theorem C03_names_idx_length : forall (nm : list (option nat)) bs idx sl B fast l,
+  slots idx bs = Some sl -> bcast_all (adv_shapes idx) = Ok B -> length nm = length bs ->
+  names_idx (Some nm) bs idx fast = Ok (Some l) -> length l = length (place B sl).
+Proof. intros nm. exact (names_idx_length nm). Qed.
+Print Assumptions C03_names_idx_length.
+
+(* WHICH names survive.  Index without advanced items: the names of the sliced dims in order, None for inserted dims,
+   then the untouched trailing dims ... *)
+Theorem C03_names_basic : forall bs idx sl,
+  slots idx bs = Some sl -> nadv idx = 0 ->
+  names_take bs idx = Ok (origins idx 0 ++ map Some (seq (total_consumed idx) (length bs - total_consumed idx))).
+Proof. exact names_take_basic. Qed.
+Print Assumptions C03_names_basic.
+
+(* ... one integer index array among basic items: its result dims (one per dim of the array) all carry the name of the
+   dim it indexes (so a rank-2 array duplicates that name: the code's choice, transcribed) ... *)
+Theorem C03_names_single_adv : forall bs pre sh post sl,
+  slots (pre ++ IAdv sh :: post) bs = Some sl -> nadv pre = 0 -> nadv post = 0 ->
+  names_take bs (pre ++ IAdv sh :: post)
+  = Ok (origins pre 0 ++ repeat (Some (total_consumed pre)) (length sh) ++ origins post (S (total_consumed pre))
+        ++ map Some (seq (total_consumed (pre ++ IAdv sh :: post)) (length bs - total_consumed (pre ++ IAdv sh :: post)))).
+Proof. exact names_take_single_adv. Qed.
+Print Assumptions C03_names_single_adv.
+
+(* ... and these labels are the dims the element map reads from: if kept result dim j is labelled with source dim i, the
+   i-th source coordinate of sel is a function of the j-th kept coordinate alone (any other coordinates, any position in
+   the broadcast block); an inserted dim is labelled None *)
+Theorem C03_names_follow_sel : forall idx dims b b' ks ks' s s' c j i,
+  Forall mask_len_ok idx ->
+  sel_items idx dims b ks = Some s -> sel_items idx dims b' ks' = Some s' ->
+  nth_error (origins (map erase idx) c) j = Some (Some i) ->
+  nth_error ks j = nth_error ks' j ->
+  c <= i /\ nth_error s (i - c) = nth_error s' (i - c).
+Proof. exact sel_items_origin. Qed.
+Print Assumptions C03_names_follow_sel.
+
+(* the dim a lone index array is named after: its source coordinate is norm (array entry at the block position),
+   independent of every kept coordinate *)
+Theorem C03_adv_name_follows_sel : forall pre sh vals post dims b ks ks' s s',
+  nadv (map erase pre) = 0 -> existsb vis_ell pre = false ->
+  sel_items (pre ++ VAdv sh vals :: post) dims b ks = Some s ->
+  sel_items (pre ++ VAdv sh vals :: post) dims b ks' = Some s' ->
+  nth_error s (total_consumed (map erase pre)) = nth_error s' (total_consumed (map erase pre))
+  /\ exists n, nth_error s (total_consumed (map erase pre)) = Some (norm n (lookup sh vals b)).
+Proof. exact sel_items_adv_coord. Qed.
+Print Assumptions C03_adv_name_follows_sel.
+
+(* ALL indices: the names of td[idx] are torch's own placement rule ([place], the function that gives the result SHAPE)
+   applied to labels — kept dims labelled with the source dim they slice (0 = unnamed inserted dim, S i = dim i), the
+   broadcast block labelled with the dim of the lone integer index array, unnamed when a mask or several advanced items
+   share it — on slots that have the skeleton of the slots torch's shape rule uses *)
+Theorem C03_names_place : forall bs idx sl,
+  slots idx bs = Some sl ->
+  exists tk, names_take bs idx = Ok tk /\
+    map code tk = place (repeat (code (first_adv_src idx 0)) (advnd idx))
+                        (lslots idx 0 ++ map K (map S (seq (total_consumed idx) (length bs - total_consumed idx)))).
+Proof. exact names_take_place. Qed.
+Print Assumptions C03_names_place.
+
+Theorem C03_names_skeleton : forall bs idx sl,
+  slots idx bs = Some sl ->
+  let lsl := lslots idx 0 ++ map K (map S (seq (total_consumed idx) (length bs - total_consumed idx))) in
+  map unlabel lsl = map unlabel sl /\ has_A lsl = has_A sl /\ adjacent lsl = adjacent sl
+  /\ length (before_A lsl) = length (before_A sl) /\ length (keeps lsl) = length (keeps sl).
+Proof. exact names_skeleton. Qed.
+Print Assumptions C03_names_skeleton.
+
+(* ================= memory sharing: the index that reaches the leaves is the user's index with its Ellipsis replaced by
+   full slices — the same advanced items (no list / range / ndarray conversion), hence the same view-vs-copy class *)
+Theorem C03_dispatch_keeps_class : forall bs idx idx',
+  getitem_dispatch bs idx = HIndex idx' ->
+  (exists n, idx' = subst_ell n idx) /\ filter is_adv idx' = filter is_adv idx /\ is_view idx' = is_view idx.
+Proof. exact dispatch_keeps_class. Qed.
+Print Assumptions C03_dispatch_keeps_class.
+
+Theorem C03_dispatch_self_is_view : forall bs idx, getitem_dispatch bs idx = HSelf -> is_view idx = true.
+Proof. exact dispatch_self_is_view. Qed.
+Print Assumptions C03_dispatch_self_is_view.
+
+(* non-vacuity *)
+Example C03_ex3 :   (* negative int, stepped slice, None, 2 broadcast index arrays separated by a slice -> block in front *)
+  sel [3; 4; 5] [VAdv [2] [0; -1]%Z; VSl (Some 1%Z) None (Some 2%Z); VAdv [1] [3%Z]] [1; 1] = Some [2; 3; 3]%Z
+  /\ sel_ne ([3; 4; 5] ++ [7]) [VAdv [2] [0; -1]%Z; VSl (Some 1%Z) None (Some 2%Z); VAdv [1] [3%Z]] ([1; 1] ++ [6])
+     = Some ([2; 3; 3] ++ [6])%Z.
+Proof. split; reflexivity. Qed.
+Example C03_ex3b : vwf_at [1] [VAdv [2] [0; -1]%Z; VSl (Some 1%Z) None (Some 2%Z); VAdv [1] [3%Z]] [3; 4; 5]
+  /\ in_range [2; 2] [1; 1].
+Proof. split; [cbn; lia|repeat constructor]. Qed.
+Example C03_ex4 :   (* 2-dim mask with True at (0,1) and (2,0), then an Ellipsis *)
+  sel [3; 2; 4] [VMask [3; 2] [[0; 1]; [2; 0]]; VEll] [1; 3] = Some [2; 0; 3]%Z.
+Proof. reflexivity. Qed.
+Example C03_ex5 : written_ne [3] [VSl (Some 1%Z) None None] [2%Z] /\ ~ written_ne [3] [VSl (Some 1%Z) None None] [0%Z].
+Proof.
+  split.
+  - exists [K 2], [], [1]. repeat split; try reflexivity. repeat constructor.
+  - intros (sl & B & r & Hs & HB & Hr & Hsel). cbn in Hs, HB. injection Hs as <-. injection HB as <-.
+    cbn in Hr. inversion Hr as [|i n r' l' Hi Hr' E1 E2]; subst. inversion Hr'; subst.
+    cbn in Hsel. destruct i as [|[|i]]; cbn in Hsel; try discriminate; lia.
+Qed.
+Example C03_ex6 : names_take [3; 4; 5] [ISl None None None; IAdv [2; 2]] = Ok [Some 0; Some 1; Some 1; Some 2]
+  /\ names_take [3; 4; 5] [IAdv [2]; ISl None None None; IAdv [2]] = Ok [None; Some 1].
+Proof. split; reflexivity. Qed.
+Example C03_ex7 : setitem_target [3; 4] [IInt (-1)%Z; IAdv [2]] = Ok [2]
+  /\ torch_shape (new_shape [3; 4] [2] [2; 7]) [IInt (-1)%Z; IAdv [2]] = Some [2; 7].
+Proof. split; reflexivity. Qed.
+Example C03_ex8 : getitem_dispatch [3; 4] [IEll; IAdv [2]] = HIndex [ISl None None None; IAdv [2]]
+  /\ getitem_dispatch [3; 4] [IEll] = HSelf.
+Proof. split; reflexivity. Qed.
+Example C03_ex9 :   (* names: int, None, stepped slice on [3;4;5] -> [None; dim 1; dim 2]; sel reads dim 1 from kept coordinate 1 *)
+  names_take [3; 4; 5] [IInt 0%Z; INone; ISl None None (Some 2%Z)] = Ok [None; Some 1; Some 2]
+  /\ origins [IInt 0%Z; INone; ISl None None (Some 2%Z)] 0 = [None; Some 1]
+  /\ sel_items [VInt 0%Z; VNone; VSl None None (Some 2%Z)] [3; 4; 5] [] [0; 1; 4] = Some [0; 2; 4]%Z.
+Proof. repeat split; reflexivity. Qed.
+Example C03_ex10 :  (* a rank-2 index array on dim 1: both result dims are named after dim 1 *)
+  names_take [3; 4; 5] ([ISl None None None] ++ IAdv [2; 2] :: []) = Ok [Some 0; Some 1; Some 1; Some 2]
+  /\ nadv [ISl None None None] = 0.
+Proof. split; reflexivity. Qed.
+Example C03_ex11 :  (* two index arrays separated by a slice: unnamed block in front; a mask: unnamed block in place *)
+  names_take [3; 4; 5] [IAdv [2]; ISl None None None; IAdv [2]] = Ok [None; Some 1]
+  /\ place (repeat (code (first_adv_src [IAdv [2]; ISl None None None; IAdv [2]] 0)) 1)
+           (lslots [IAdv [2]; ISl None None None; IAdv [2]] 0 ++ map K (map S (seq 3 0))) = [0; 2]
+  /\ names_take [3; 4; 5] [ISl None None None; IMask [4] 2] = Ok [Some 0; None; Some 2].
+Proof. repeat split; reflexivity. Qed.
+Example C03_ex12 :  (* a write of {b, z(new)} on a destination {a, b}: accepted, a untouched, z created with the batch shape in front *)
+  setitem 8 ex12_dest [IInt 1%Z] (WTree ex12_value) = Ok ex12_result.
+Proof. vm_compute. reflexivity. Qed.
